@@ -24,12 +24,20 @@ pub(crate) enum PathDirection {
 }
 
 /// A path builder.
-#[derive(Clone, Default, Debug)]
+#[derive(Clone, Debug)]
 pub struct PathBuilder {
     pub(crate) verbs: Vec<PathVerb>,
     pub(crate) points: Vec<Point>,
     pub(crate) last_move_to_index: usize,
     pub(crate) move_to_required: bool,
+}
+
+impl Default for PathBuilder {
+    fn default() -> Self {
+        // A derived `Default` would start with `move_to_required == false`
+        // and `line_to` on such a builder would produce a path without a leading MoveTo.
+        PathBuilder::new()
+    }
 }
 
 impl PathBuilder {
